@@ -95,9 +95,9 @@ sa_types!(t, PBin, bin, 17, 2);
 crate::proof!{ #[kani::unwind(5)] fn c07_q_void_bin() { skip::skip_void::<PBin>() } }
 crate::proof!{ #[kani::unwind(5)] fn c07_t_void_compact() { skip::skip_void::<PCompact>() } }
 crate::proof!{ #[kani::unwind(5)] fn c07_t_void_unchecked() { skip::skip_void::<PUnchecked>() } }
-crate::proof!{ #[kani::unwind(4)] fn c07_q_struct_then_bool_compact() { skip::skip_struct_then_bool::<PCompact>() } }
-crate::proof!{ #[kani::unwind(4)] fn c07_t_struct_then_bool_bin() { skip::skip_struct_then_bool::<PBin>() } }
-crate::proof!{ #[kani::unwind(4)] fn c07_t_struct_then_bool_unchecked() { skip::skip_struct_then_bool::<PUnchecked>() } }
+crate::proof!{ #[kani::unwind(3)] fn c07_q_struct_then_bool_true_compact() { skip::skip_struct_then_bool::<PCompact, true>() } }
+crate::proof!{ #[kani::unwind(3)] fn c07_q_struct_then_bool_false_compact() { skip::skip_struct_then_bool::<PCompact, false>() } }
+crate::proof!{ #[kani::unwind(3)] fn c07_t_struct_then_bool_true_bin() { skip::skip_struct_then_bool::<PBin, true>() } }
 crate::proof!{ #[kani::unwind(4)] fn c07_q_depthmap_limit2_compact() { skip::skip_depth_map::<PCompact, 2>() } }
 crate::proof!{ #[kani::unwind(4)] fn c07_q_depthmap_limit3_compact() { skip::skip_depth_map::<PCompact, 3>() } }
 crate::proof!{ #[kani::unwind(4)] fn c07_t_depthmap_limit2_bin() { skip::skip_depth_map::<PBin, 2>() } }
